@@ -118,12 +118,18 @@ def derivCoeffs (coeffs : List (Cx Rat)) : List (Cx Rat) :=
 def condDen (coeffs : List (Cx Rat)) (z : Cx Rat) : Rat :=
   absUpper z * Proto.sqrtUpper (Cx.normSq (hornerCx (derivCoeffs coeffs) z))
 
-/-- acceptance of one returned root: `|p(z)| ≤ tol·S(z)·(1 + κ(z))` with `κ = S/(|z||p'(z)|)`, written without
-division as `|p(z)|·D ≤ tol·S·(D + S)` and squared (all quantities non-negative) -/
+/-- acceptance of one returned root: `|p(z)| ≤ tol·S(z)·(1 + min(κ(z), 10⁶))` with `κ = S/(|z||p'(z)|)` (the cap keeps the
+bound meaningful even at a multiple root or at `z = 0`), written without division as
+`|p(z)|·D ≤ tol·S·(D + min(S, 10⁶·D))` and squared (all quantities non-negative) -/
 def rootAccept (tol : Rat) (coeffs : List (Cx Rat)) (z : Cx Rat) : Bool :=
   let S := scaleAt coeffs z
   let D := condDen coeffs z
-  Cx.normSq (hornerCx coeffs z) * (D * D) ≤ (tol * S * (D + S)) * (tol * S * (D + S))
+  let K := if S ≤ 1000000 * D then S else 1000000 * D
+  if D ≤ 0 then
+    -- |z||p'(z)| = 0: conditioning term at its cap
+    Cx.normSq (hornerCx coeffs z) ≤ (tol * S * 1000001) * (tol * S * 1000001)
+  else
+    Cx.normSq (hornerCx coeffs z) * (D * D) ≤ (tol * S * (D + K)) * (tol * S * (D + K))
 
 def polyAccept (tol : Rat) (coeffs roots : List (Cx Rat)) : Bool :=
   (roots.length + 1 == coeffs.length) && roots.all (rootAccept tol coeffs)
